@@ -386,6 +386,19 @@ class Sim:
         """-> new Dgram carrying the edited, correctly re-protected message, or None if not applicable"""
         import os
         ob = self.observer()
+        if len(d.data) >= 28 and d.data[18] == 34:
+            # IKE_SA_INIT travels in the clear: a man in the middle needs no keys
+            try:
+                m = W.decode(d.data)
+            except W.RefSyntax:
+                return None
+            m['inner'] = m['payloads']
+            pl = edit_inner(m, kind, arg)
+            if pl is None:
+                return None
+            m2 = dict(m, payloads=pl)
+            m2.pop('inner', None)
+            return WD.Dgram(-2, d.src, d.dst, bytes(W.encode(m2)), self.w.clock.t, 'rewriter')
         dec = ob.decoded.get(d.id)
         if dec is None:
             return None
@@ -509,6 +522,109 @@ def edit_inner(m, kind, arg):
         return inner
     if kind == 'fn':
         return arg(inner, m)
+    if kind == 'sa':                         # edit the (first) SA payload's proposals; arg = [what, k]
+        sas = [p for p in inner if p['t'] == 'SA']
+        if not sas or not sas[0]['proposals']:
+            return None
+        sa = sas[0]
+        what, k = arg[0], (arg[1] if len(arg) > 1 else 0)
+        pr = sa['proposals'][0]
+        trs = pr['transforms']
+        if what == 'foreign':                # replace one transform by one of the same type that nobody configured
+            i = k % len(trs)
+            t = dict(trs[i])
+            t['id'] = {1: 3, 2: 4, 3: 5, 4: 2, 5: 1}.get(t['type'], 77)      # 3DES, PRF_TIGER, DES_MAC, MODP1024, ESN
+            t['keylen'] = None
+            trs[i] = t
+        elif what == 'keylen':               # change the key length of the cipher
+            enc = [t for t in trs if t['type'] == 1]
+            if not enc:
+                return None
+            enc[0]['keylen'] = {128: 192, 256: 192, 192: 128, None: 128}.get(enc[0].get('keylen'), 192)
+        elif what == 'no_keylen':
+            enc = [t for t in trs if t['type'] == 1]
+            if not enc or enc[0].get('keylen') is None:
+                return None
+            enc[0]['keylen'] = None
+        elif what == 'extra':                # add a second transform of an existing type
+            i = k % len(trs)
+            t = dict(trs[i])
+            t['id'] = {1: 12, 2: 7 if t['id'] != 7 else 5, 3: 14 if t['id'] != 14 else 12, 4: 21 if t['id'] != 21 else 20,
+                       5: 1}.get(t['type'], 9)
+            if t['type'] == 1:
+                t['keylen'] = 128 if t.get('keylen') != 128 else 256
+            trs.append(t)
+        elif what == 'dup':
+            trs.append(dict(trs[k % len(trs)]))
+        elif what == 'drop':                 # remove every transform of one type
+            types = sorted({t['type'] for t in trs})
+            ty = types[k % len(types)]
+            pr['transforms'] = [t for t in trs if t['type'] != ty]
+            if not pr['transforms']:
+                return None
+        elif what == 'protocol':
+            pr['protocol'] = {1: 3, 2: 3, 3: 2}.get(pr['protocol'], 1)
+        elif what == 'two_proposals':        # a bogus proposal in front of the genuine one
+            bogus = copy.deepcopy(pr)
+            bogus['transforms'][0]['id'] = 99
+            sa['proposals'] = [bogus, pr]
+        elif what == 'add_type':             # a transform type the initiator never offered (e.g. DH in a non-PFS child)
+            have = {t['type'] for t in trs}
+            cand = [(4, 19), (2, 5), (5, 0), (3, 12)]
+            new = next(((ty, i_) for ty, i_ in cand if ty not in have), None)
+            if new is None:
+                return None
+            trs.append({'type': new[0], 'id': new[1], 'keylen': None})
+        else:
+            raise ValueError(what)
+        return inner
+    if kind == 'ke_group':                   # KE payload claims / uses another group
+        kes = [p for p in inner if p['t'] == 'KE']
+        if not kes:
+            return None
+        kes[0]['group'] = int(arg)
+        return inner
+    if kind == 'ts':                         # edit the traffic selectors; arg = [what, k]
+        what = arg[0]
+        tsi = [p for p in inner if p['t'] == 'TSi']
+        tsr = [p for p in inner if p['t'] == 'TSr']
+        if not tsi or not tsr:
+            return None
+        target = (tsi[0], tsr[0])[(arg[1] if len(arg) > 1 else 0) % 2]
+        sel = target['selectors']
+        if what == 'widen_addr':
+            n = len(sel[0]['saddr']) // 2
+            sel[0]['saddr'], sel[0]['eaddr'] = '00' * n, 'ff' * n
+        elif what == 'widen_port':
+            if (sel[0]['sport'], sel[0]['eport']) == (0, 65535):
+                return None
+            sel[0]['sport'], sel[0]['eport'] = 0, 65535
+        elif what == 'widen_proto':
+            if sel[0]['proto'] == 0:
+                return None
+            sel[0]['proto'] = 0
+        elif what == 'shift':
+            n = len(sel[0]['saddr']) // 2
+            v = (int(sel[0]['eaddr'], 16) + 1) % (1 << (8 * n))
+            sel[0]['eaddr'] = '%0*x' % (2 * n, v)
+            if int(sel[0]['eaddr'], 16) < int(sel[0]['saddr'], 16):
+                return None
+        elif what == 'other_proto':
+            sel[0]['proto'] = 17 if sel[0]['proto'] != 17 else 6
+        elif what == 'wide_first':           # a wide selector first, the legitimate one after it
+            n = len(sel[0]['saddr']) // 2
+            wide = dict(sel[0], saddr='00' * n, eaddr='ff' * n, sport=0, eport=65535)
+            target['selectors'] = [wide] + sel
+        elif what == 'swap':
+            tsi[0]['selectors'], tsr[0]['selectors'] = tsr[0]['selectors'], tsi[0]['selectors']
+        else:
+            raise ValueError(what)
+        return inner
+    if kind == 'mode':                       # add or remove USE_TRANSPORT_MODE
+        tm = [p for p in inner if p['t'] == 'NOTIFY' and p['ntype'] == W.N['USE_TRANSPORT_MODE']]
+        if tm:
+            return [p for p in inner if p not in tm]
+        return inner + [notify(W.N['USE_TRANSPORT_MODE'])]
     raise ValueError('unknown rewrite ' + kind)
 
 
